@@ -190,7 +190,7 @@ class Gen:
         if nd >= 1:
             ops += ['loopcat', 'loopcat']
         if self.differentiable:
-            bad = {'abs', 'min', 'max', 'mod', 'sign', 'floordiv', 'abs_c', 'greater', 'less', 'equal', 'not', 'arctan2', 'guard'}
+            bad = {'abs', 'min', 'max', 'mod', 'sign', 'floordiv', 'abs_c', 'greater', 'less', 'equal', 'not', 'guard'}      # arctan2 is smooth away from its cut: kept, with a margin in the reference
             ops = [o for o in ops if o not in bad]
         if self.only_ops is not None:
             ops = [o for o in ops if o in self.only_ops]
@@ -882,6 +882,8 @@ class Ref:
             a, b = C(0), C(1)
             if ((a == 0) & (b <= 0)).any():
                 raise NonFinite('arctan2 on its branch cut (depends on the sign of zero)')
+            if self.smooth and ((abs(a) < 1e-3) & (b < 1e-3)).any():
+                raise NonFinite('arctan2 within a margin of its branch cut or the origin: not differentiable there')
             return numpy.arctan2(a, b)
         if op == 'pow':
             if self.smooth and (C(0) == 0).any():
